@@ -274,8 +274,21 @@ def driver_bin():
 # C++ side
 # ---------------------------------------------------------------------------------------------
 
+_built = {}
+_build_lock = __import__("threading").Lock()
+
+
 def cxx_build(variant="plain", targets=("vharness",), ctx=None):
-    """(Re)build the given targets from /repo's current working tree.  Returns build dir."""
+    """(Re)build the given targets from /repo's current working tree (once per process and target set).  Returns build dir."""
+    with _build_lock:
+        key = (variant, tuple(sorted(targets)))
+        if key in _built:
+            return _built[key]
+        _built[key] = _cxx_build(variant, targets)
+        return _built[key]
+
+
+def _cxx_build(variant, targets):
     args, flags = VARIANTS[variant]
     bdir = os.path.join(BUILD, variant)
     os.makedirs(bdir, exist_ok=True)
